@@ -386,12 +386,43 @@ def canary_reads_case(t):
     return t[:m.start(2)] + str(int(m.group(2)) + 1) + t[m.end(2):] if m else None
 
 
-def tag_case_coq(h):
-    """history -> (Coq text (nser, list (op * list aobs)), number of observations, items). An observation = the arrival order
-    (series, time) of a flat read served by ONE group cursor (kind flat1)."""
+def coq_rows(rows, s):
+    return coq_list(["((%s, %s), %s)" % (coq_z(s), coq_z(r["t"]), coq_list(["(%s, %s)" % (coq_z(x["f"]), coq_z(x["v"])) for x in (r["f"] or [])]))
+                     for r in rows or []])
+
+
+def tag_obs_coq(h, r):
+    return "(%s, %s, %s, %s, %s)" % (coq_z(r["tmin"]), coq_z(r["tmax"]), coq_list([coq_z(f) for f in r["fields"]]),
+                                     "true" if r["asc"] else "false",
+                                     coq_list(["(%s, %s)" % (coq_z(a[0]), coq_z(a[1])) for a in (r.get("arr") or [])]))
+
+
+def lim_obs_coq(h, r):
+    per = coq_list([coq_rows((r["rows"] or {}).get(str(s)), s) for s in range(h["nser"])])
+    return "(%s, %s, %s, %s, %s, %s)" % (coq_z(r["tmin"]), coq_z(r["tmax"]), coq_list([coq_z(f) for f in r["fields"]]),
+                                         "true" if r["asc"] else "false", coq_z(r["need"]), per)
+
+
+SIDE = {
+    # name: (Coq module, observation type, mismatch fn, total fn, observations of an op, text of one observation,
+    #        regex whose group 2 is a number of an observation that the model compares, evidence key, description)
+    "tag": ("C02.TagSet", "aobs", "tag_mismatches", "tag_total",
+            lambda o: [r for r in (o.get("reads") or []) if r.get("kind") == "flat1"], tag_obs_coq,
+            r"(, (?:true|false), \[\(\d+%Z, )(\d+)(%Z\))", "flat_single_cursor_reads_replayed_on_tagset_model",
+            "tag-set merge (arrival order of a flat read served by one group cursor)"),
+    "lim": ("C02.Limit", "lobs", "lim_mismatches", "lim_total",
+            lambda o: o.get("lim") or [], lim_obs_coq,
+            r"(, (?:true|false), \d+%Z, \[[^|]*?\(\(\d+%Z, \d+%Z\), \[\(\d+%Z, )(\d+)(%Z\))", "limit_reads_replayed_on_limit_model",
+            "LIMIT/OFFSET push-down (per-series prefixes, lower bound on the number of rows)"),
+}
+
+
+def side_case_coq(h, which):
+    """history -> (Coq text (nser, list (op * list obs)), number of observations, items)"""
+    obs_of, obs_coq = SIDE[which][4], SIDE[which][5]
     items = []
     for txt, i in model_ops(h):
-        obs = [(i, r) for r in (h["ops"][i].get("reads") or []) if r.get("kind") == "flat1"]
+        obs = [(i, r) for r in obs_of(h["ops"][i])]
         if txt is None:
             if items:
                 items[-1][1].extend(obs)
@@ -399,58 +430,55 @@ def tag_case_coq(h):
         items.append((txt, obs))
     out, n = [], 0
     for txt, obs in items:
-        ol = []
-        for (i, r) in obs:
-            ol.append("(%s, %s, %s, %s, %s)" % (coq_z(r["tmin"]), coq_z(r["tmax"]), coq_list([coq_z(f) for f in r["fields"]]),
-                                                "true" if r["asc"] else "false",
-                                                coq_list(["(%s, %s)" % (coq_z(a[0]), coq_z(a[1])) for a in (r.get("arr") or [])])))
-            n += 1
-        out.append("(%s, %s)" % (txt, coq_list(ol)))
+        out.append("(%s, %s)" % (txt, coq_list([obs_coq(h, r) for (_, r) in obs])))
+        n += len(obs)
     return "(%d%%nat, %s)" % (h["nser"], coq_list(out)), n, items
 
 
-def eval_tag(ck, hs, ok):
-    """replays the arrival order of the flat single-cursor reads on the model of the tag-set merge (TagSet.v flat_stream).
-    Returns {case index: [(op index, read)]} of the reads whose order the model does not reproduce, None when the
-    evaluation itself failed. Fails closed like eval_agg (count of observations, readable tuples, canary)."""
+def eval_side(ck, hs, ok, which):
+    """replays the observations of kind `which` on their Coq model (repaired variant). Returns {case index: [(op index,
+    observation)]} of the observations the model does not accept, None when the evaluation itself failed. Fails closed:
+    the number of observations evaluated must equal the number sent, every printed tuple must be readable, and a canary
+    history with one corrupted value must be reported."""
     if not ok:
         return None
+    mod, typ, mism, tot, _, _, canre, covkey, what = SIDE[which]
     shard = 25
     files, meta = [], []
-    hdr = ("From Coq Require Import ZArith List Bool. From OG Require Import C02.Model C02.Corr C02.TagSet.\n"
-           "Import ListNotations. Open Scope Z_scope.\n")
+    hdr = ("From Coq Require Import ZArith List Bool. From OG Require Import C02.Model C02.Corr %s.\n"
+           "Import ListNotations. Open Scope Z_scope.\n" % mod)
     canary = None
     for a in range(0, len(hs), shard):
         texts, counts, itemss = [], 0, []
         for h in hs[a:a + shard]:
-            t, n, items = tag_case_coq(h)
+            t, n, items = side_case_coq(h, which)
             texts.append(t)
             counts += n
             itemss.append(items)
             if canary is None and n > 0 and not (h.get("oracle") or h.get("xoracle") or h.get("crash")):
-                m = re.search(r"(, (?:true|false), \[\(\d+%Z, )(\d+)(%Z\))", t)   # the time of the first arrival of some read
+                m = re.search(canre, t)
                 if m:
                     canary = t[:m.start(2)] + str(int(m.group(2)) + 1) + t[m.end(2):]
-        files.append(("c02tag%d" % (a // shard), hdr + "Definition cases : list (nat * list (op * list aobs)) := [\n%s\n].\n"
-                      "Definition A := Eval vm_compute in tag_mismatches cases.\nPrint A.\n"
-                      "Definition T := Eval vm_compute in tag_total cases.\nPrint T.\n" % ";\n".join(texts)))
+        files.append(("c02%s%d" % (which, a // shard), hdr + "Definition cases : list (nat * list (op * list %s)) := [\n%s\n].\n"
+                      "Definition A := Eval vm_compute in %s cases.\nPrint A.\n"
+                      "Definition T := Eval vm_compute in %s cases.\nPrint T.\n" % (typ, ";\n".join(texts), mism, tot)))
         meta.append((a, counts, itemss))
     NCAN = 12
     total_sent = sum(c for _, c, _ in meta)
     if canary is not None:
-        files.append(("c02tagcanary", hdr + "Definition cases : list (nat * list (op * list aobs)) := [\n%s\n].\n"
-                      "Definition A := Eval vm_compute in tag_mismatches cases.\nPrint A.\n" % ";\n".join([canary] * NCAN)))
+        files.append(("c02%scanary" % which, hdr + "Definition cases : list (nat * list (op * list %s)) := [\n%s\n].\n"
+                      "Definition A := Eval vm_compute in %s cases.\nPrint A.\n" % (typ, ";\n".join([canary] * NCAN), mism)))
     outs = ck.coq_eval_many(files, timeout=900)
     if canary is not None:
         rc, o = outs.pop()
         m = re.search(r"A\s*=\s*(.*?)\s*:\s*list", o, re.S)
         tups = coq_tuples(m.group(1), 3) if rc == 0 and m else None
         if tups is None or {t[0] for t in tups} != set(range(NCAN)):
-            ck.broken.append("C02 tag-set canary: a corrupted arrival order was not reported by the tag-set model evaluation "
-                             "(read back: %s)" % (o[-300:] if tups is None else sorted(tups)[:NCAN]))
+            ck.broken.append("C02 %s canary: a corrupted observation was not reported by the model evaluation (read back: %s)" % (
+                which, o[-300:] if tups is None else sorted(tups)[:NCAN]))
             return None
     elif total_sent > 0:
-        ck.broken.append("C02 tag-set canary: no observation with a non-empty arrival order in a history without an oracle failure")
+        ck.broken.append("C02 %s canary: no usable observation in a history without an oracle failure" % which)
         return None
     bad, total = {}, 0
     for (a, counts, itemss), (rc, o) in zip(meta, outs):
@@ -458,17 +486,17 @@ def eval_tag(ck, hs, ok):
         mt = re.search(r"T\s*=\s*(\d+)(?:%nat)?\s*:\s*nat", o)
         tups = coq_tuples(m.group(1), 3) if rc == 0 and m else None
         if tups is None or not mt or int(mt.group(1)) != counts:
-            ck.broken.append("C02 tag-set model evaluation failed on shard starting at case %d (sent %d observations): %s" % (a, counts, o[-500:]))
+            ck.broken.append("C02 %s model evaluation failed on shard starting at case %d (sent %d observations): %s" % (which, a, counts, o[-500:]))
             return None
         total += counts
         for (k, i, j) in tups:
             if k >= len(itemss) or i >= len(itemss[k]) or j >= len(itemss[k][i][1]):
-                ck.broken.append("C02 tag-set model evaluation: index out of range in %s" % ((k, i, j),))
+                ck.broken.append("C02 %s model evaluation: index out of range in %s" % (which, (k, i, j)))
                 return None
             bad.setdefault(a + k, []).append(itemss[k][i][1][j])
-    ck.cov["flat_single_cursor_reads_replayed_on_tagset_model"] = total
+    ck.cov[covkey] = total
     if total == 0 and not getattr(ck, "replay", None):
-        ck.broken.append("C02: the harness recorded no flat single-cursor read to replay on the tag-set model")
+        ck.broken.append("C02: the harness recorded no observation for the model of the %s" % what)
     return bad
 
 
@@ -570,7 +598,7 @@ def main(ck):
     targets = ["C02/Corr.vo"]
     have_proofs = os.path.exists(os.path.join(ck.verif, "coq", "C02", "Props.v"))
     if have_proofs:
-        targets += ["C02/Proofs.vo", "C02/Refine.vo", "C02/FileCursor.vo", "C02/CorrAgg.vo", "C02/LayoutOk.vo", "C02/TagSet.vo"]
+        targets += ["C02/Proofs.vo", "C02/Refine.vo", "C02/FileCursor.vo", "C02/CorrAgg.vo", "C02/LayoutOk.vo", "C02/TagSet.vo", "C02/Limit.vo"]
     ok = ck.coq_build(targets)
     if ok and have_proofs:
         props = ["C02/Props.v"]
@@ -603,9 +631,12 @@ def main(ck):
     for h in crashed[:3]:
         ck.broken.append("harness c02: history %d aborted: %s" % (h["case"], h["crash"][:300]))
 
+    ck.log("harness done: %d histories" % len(hs))
     res = eval_model(ck, hs, ok)
+    ck.log("model replay done")
     aggbad = eval_agg(ck, hs, ok)
-    tagbad = eval_tag(ck, hs, ok)
+    sidebad = {w: eval_side(ck, hs, ok, w) for w in ("tag", "lim")}
+    ck.log("file-cursor and tag-set replays done")
 
     # ---- verdicts
     # entries of the committed per-property fragment that the merged known_findings.json does not hold yet
@@ -726,20 +757,20 @@ def main(ck):
                                                    "returned although the direct oracle found it correct"}
             if len(ck.broken) > 6:
                 break
-    if tagbad:
-        for idx in sorted(tagbad):
+    for w, badmap in sidebad.items():
+        for idx in sorted(badmap or {}):
             h = hs[idx]
             if h.get("oracle") or h.get("xoracle") or h.get("crash"):
                 continue
-            opi, r = tagbad[idx][0]
-            ck.broken.append("correspondence C02 tag-set merge model/implementation: history %d op %d: flat read [%d,%d] fields %s %s arrived as %s" % (
-                h["case"], opi, r["tmin"], r["tmax"], r["fields"], "asc" if r["asc"] else "desc", r.get("arr")))
+            opi, r = badmap[idx][0]
+            slimr = {k: v for k, v in r.items() if k != "rows"} if w == "tag" else r
+            ck.broken.append("correspondence C02 %s model/implementation: history %d op %d: %s" % (SIDE[w][8], h["case"], opi, json.dumps(slimr)[:400]))
             if not hasattr(ck, "nofail_detail"):
                 slim = dict(h)
                 slim["ops"] = [{k: v for k, v in x.items() if k in ("k", "rows", "level", "files", "bg")} for x in h["ops"]]
-                ck.nofail_detail = {"kind": "correspondence-tag-set", "op": opi, "read": r, "history": slim,
-                                    "explanation": "the rows of a tag set holding several series did not arrive in (time, series) order "
-                                                   "(descending: reversed), which is what the model of tagSetCursor's heap states"}
+                ck.nofail_detail = {"kind": "correspondence-" + w, "op": opi, "observation": r, "history": slim,
+                                    "explanation": "the model of the %s does not accept what the real store delivered although the "
+                                                   "direct oracle found every row correct" % SIDE[w][8]}
             if len(ck.broken) > 6:
                 break
     for fid, fobj, n in ((FINDING, finding, sig_cases), (FINDING_MS, finding_ms, ms_cases), (FINDING_FC, finding_fc, fc_eligible)):
